@@ -69,8 +69,10 @@ def _stage(name, srcdir, files=("Cargo.toml", "build.rs", "src/main.rs")):
         if os.path.exists(p):
             _write_if_changed(os.path.join(dst, rel), open(p).read())
     lock = os.path.join(dst, "Cargo.lock")
-    if not os.path.exists(lock):
-        shutil.copy(os.path.join(vlib.REPO, "Cargo.lock"), lock)
+    src_lock = open(os.path.join(vlib.REPO, "Cargo.lock")).read()
+    if _write_if_changed(os.path.join(dst, ".lock-source"), src_lock) or not os.path.exists(lock):
+        with open(lock, "w") as f:          # cargo prunes it to what the crate needs on first build
+            f.write(src_lock)
     return dst
 
 
@@ -268,29 +270,55 @@ incremental = false
 
 
 def build_corpus(seed, n, bias=None):
-    """Generate + compile (cached by repo hash, seed, size, generator hash) + return
-    dict(dir, corpus, exp, ok, out)."""
+    """Generate + compile (cached by repo hash, seed, size, generator hash) the corpus program.
+    Types that do not compile under the current derive are quarantined (dropped together with the
+    types that mention them) and the rest is recompiled, so that one rejected type does not hide
+    what the derive does to the others.  Returns dict(dir, corpus, exp, ok, out, excluded, ...)."""
     gen_hash = vlib.tree_hash([os.path.join(HD, "shapegen.py")])
     key = _sha(vlib.repo_hash(), vlib.REPO, seed, n, gen_hash, json.dumps(bias, sort_keys=True))
     d = os.path.join(WORK, "corpus", key)
     corpus = sg.Corpus(seed, n, bias=bias)
-    src, exp = sg.render_corpus(corpus)
-    info = {"dir": d, "corpus": corpus, "exp": exp, "ok": True, "out": "", "src": src, "cached": False}
-    if os.path.exists(os.path.join(d, "done.json")):
+    info = {"dir": d, "corpus": corpus, "ok": True, "out": "", "cached": False, "excluded": [], "excluded_errors": ""}
+    done = os.path.join(d, "done.json")
+    if os.path.exists(done):
+        meta = json.load(open(done))
         info["cached"] = True
+        info["excluded"] = meta.get("excluded", [])
+        info["excluded_errors"] = meta.get("excluded_errors", "")
+        info["src"], info["exp"], _ = sg.render_corpus(corpus, info["excluded"])
         os.utime(d, None)
         return info
     _prune(os.path.join(WORK, "corpus"), 10)
     os.makedirs(os.path.join(d, "src"), exist_ok=True)
     _write_if_changed(os.path.join(d, "Cargo.toml"), CORPUS_TOML % vlib.REPO)
-    _write_if_changed(os.path.join(d, "src", "main.rs"), src)
     shutil.copy(os.path.join(vlib.REPO, "Cargo.lock"), os.path.join(d, "Cargo.lock"))
     tdir = os.path.join(WORK, "target-corpus")
-    ok, out = _cargo(d, tdir, json_msgs=True, timeout=1200)
+    excluded, first_errors = set(), ""
+    ok, out = False, ""
+    for rnd in range(6):
+        src, exp, line_map = sg.render_corpus(corpus, excluded)
+        _write_if_changed(os.path.join(d, "src", "main.rs"), src)
+        ok, out = _cargo(d, tdir, json_msgs=True, timeout=1200)
+        if ok:
+            break
+        text = "\n".join(l for l in out.split("\n") if not l.startswith("{"))
+        if not first_errors:
+            first_errors = text[:200] + "\n...\n" + text[-3500:]
+        bad = set()
+        for ln in re.findall(r"--> src/main\.rs:(\d+):", text):
+            ln = int(ln)
+            for a, b, ti in line_map:
+                if a <= ln <= b:
+                    bad.add(ti)
+        if not bad or len(excluded | bad) >= len(corpus.types):
+            break
+        excluded = sg.corpus_dependents(corpus, excluded | bad)
+    info["src"], info["exp"] = src, exp
+    info["excluded"] = sorted(excluded)
+    info["excluded_errors"] = first_errors if excluded else ""
     if not ok:
         info["ok"] = False
-        errs = [l for l in out.split("\n") if not l.startswith("{")]
-        info["out"] = "\n".join(errs)[-6000:]
+        info["out"] = first_errors or out[-4000:]
         shutil.rmtree(d, ignore_errors=True)
         return info
     deps = os.path.join(d, "deps")
@@ -318,9 +346,9 @@ def build_corpus(seed, n, bias=None):
         info["out"] = "cargo succeeded but artifacts were not found"
         shutil.rmtree(d, ignore_errors=True)
         return info
-    with open(os.path.join(d, "done.json"), "w") as f:
-        json.dump({"rlib": rlib, "repo": vlib.REPO, "seed": seed, "n": n}, f)
-    # keep the shared target dir from growing without bound
+    with open(done, "w") as f:
+        json.dump({"rlib": rlib, "repo": vlib.REPO, "seed": seed, "n": n, "excluded": info["excluded"],
+                   "excluded_errors": info["excluded_errors"]}, f)
     return info
 
 
@@ -359,10 +387,12 @@ def check_runtime(info, obs, model, id_base):
     (2) the model's prediction. Returns dict(violations=[...], mismatches=[...], stats)."""
     corpus, exp = info["corpus"], info["exp"]
     viols, mism = [], []
-    st = {"types": len(corpus.types), "instantiations": 0, "values_traced": 0, "pointers_placed": 0,
+    st = {"types": len([x for x in exp if x is not None]), "instantiations": 0, "values_traced": 0, "pointers_placed": 0,
           "needs_trace_true": 0, "needs_trace_false": 0, "field_positions_with_pointer": 0}
     pos_seen = set()
     for ti, e in enumerate(corpus.types):
+        if exp[ti] is None:
+            continue                      # quarantined: reported separately
         sh = e["shape"]
         vs = sg.variants_of(sh)
         ml = model.get(id_base + ti)
@@ -406,7 +436,7 @@ def check_runtime(info, obs, model, id_base):
                 direct, gated = got
                 st["values_traced"] += 1
                 st["pointers_placed"] += len(run["tokens"])
-                where = {int(k): v for k, v in run["where"].items()}      # id -> [kind, [variant, field]]
+                where = run["where"]                                      # id -> [kind, (variant, field)]
                 for i, (k, tag) in where.items():
                     pos_seen.add((ti, vi, tag[1]))
                 placed = [(where[i][0], i) for i in run["tokens"]]
@@ -608,7 +638,7 @@ def run(chk, tier, seed):
         cases = []
         for ti, e in enumerate(info["corpus"].types):
             rhos = []
-            if obs is not None:
+            if obs is not None and info["exp"][ti] is not None:
                 for ii, ie in enumerate(info["exp"][ti]["insts"]):
                     trues = sorted(set(ty for k, ty in ie["atoms"].items()
                                        if obs["A"].get((ti, ii) + tuple(int(x) for x in k.split(".")))))
@@ -657,6 +687,11 @@ def run(chk, tier, seed):
             evaluations += r["stats"]["values_traced"] + r["stats"]["instantiations"]
         elif not info["ok"]:
             chk.correspondence("run time: corpus compiles and runs against the current derive, seed=%d" % sd, False, info["out"][-3000:])
+        if info["ok"] and info["excluded"]:
+            chk.correspondence("run time: every corpus type compiles under the current derive, seed=%d" % sd, False,
+                               "%d of %d types (the model accepts all of them) had to be quarantined, e.g. %s\n%s" % (
+                                   len(info["excluded"]), len(info["corpus"].types),
+                                   [info["corpus"].types[i]["shape"]["name"] for i in info["excluded"][:8]], info["excluded_errors"][-2500:]))
 
     # ---- 5. probes
     probe_res, probe_viol, probe_mism = [], [], []
@@ -725,7 +760,7 @@ def _decide(chk, tier, seed, cfg, viols, mism_rt, mism_tok, probe_viol, base, to
         chk.notes.append("run-time oracle failures in total: %d" % len(viols))
     for p in probe_viol:
         chk.violation("rustc ACCEPTS a program that the derive must refuse (%s): %s" % (p["clause"], p["file"]),
-                      "// probe %s, compiled as a library against the current /repo; expected: reject, got: accept\n%s" % (p["file"], p["text"]),
+                      "// probe %s, compiled as a library against the current tree (%s); expected: reject, got: accept\n%s" % (p["file"], vlib.REPO, p["text"]),
                       key="probe:" + p["file"])
     # (3) macro accepted what must be rejected
     cand = [m for m in mism_tok if m.get("shape") and m.get("impl", [""])[0] == "class ok"
@@ -743,14 +778,14 @@ def _decide(chk, tier, seed, cfg, viols, mism_rt, mism_tok, probe_viol, base, to
             if verdict == "accept":
                 confirmed += 1
                 chk.violation("derive(Collect) accepts a type that it must refuse (%s)" % m["mustreject"][0],
-                              "// compiled as a library against the current /repo: rustc accepts it\n%s\n// macro output (normalised): %s\n" % (prog, m["impl"]),
+                              "// compiled as a library against the current tree (%s): rustc accepts it\n%s\n// macro output (normalised): %s\n" % (vlib.REPO, prog, m["impl"]),
                               key="accepts:" + m["mustreject"][0])
                 if confirmed >= 2:
                     break
     # directed search when something is broken but nothing concrete was found
     major_rt = [m for m in mism_rt if not m.get("minor")]
     major_tok = [m for m in mism_tok if not m.get("minor")]
-    broken = major_rt or major_tok or any(not i["ok"] for i in infos)
+    broken = major_rt or major_tok or any((not i["ok"]) or i["excluded"] for i in infos)
     if broken and not chk.viols:
         biases = []
         for m in major_tok[:40]:
